@@ -146,6 +146,15 @@ Proof.
   rewrite (sort_order_free _ _ (filter_perm _ _ _ Hp) (filter_distinct _ _ Hd)). reflexivity.
 Qed.
 
+Lemma one_pass_gave_up_order_free l l' r ap budget :
+  Permutation l l' -> distinct_versions l -> one_pass_gave_up l r ap budget = one_pass_gave_up l' r ap budget.
+Proof.
+  intros Hp Hd. unfold one_pass_gave_up.
+  destruct l as [|x l0]; [apply Permutation_nil in Hp; subst; reflexivity|].
+  destruct l' as [|y l0']; [apply Permutation_sym, Permutation_nil in Hp; discriminate|].
+  rewrite (sort_order_free _ _ (filter_perm _ _ _ Hp) (filter_distinct _ _ Hd)). reflexivity.
+Qed.
+
 (* C07: two repositories that list the same candidates of the requested project in different
    orders give the same answer, as long as no two of them have the same version *)
 Theorem get_dist_listing_order_free u u' ap r budget :
@@ -154,6 +163,7 @@ Theorem get_dist_listing_order_free u u' ap r budget :
 Proof.
   intros Hp Hd. unfold get_dist. fold (offered u r). fold (offered u' r).
   rewrite (one_pass_order_free _ _ r ap budget Hp Hd), (one_pass_order_free _ _ r true budget Hp Hd).
+  rewrite (one_pass_gave_up_order_free _ _ r ap budget Hp Hd).
   rewrite (forallb_perm _ _ _ Hp). reflexivity.
 Qed.
 
@@ -172,9 +182,12 @@ Lemma get_dist_spelling u ap r r' budget :
   norm (safe_name (rname r)) = norm (safe_name (rname r')) -> rspec r = rspec r' ->
   get_dist u ap r budget = get_dist u ap r' budget.
 Proof.
-  intros Hn Hs. unfold get_dist, one_pass, usable, has_equality, req_has_prerelease. rewrite Hn, Hs.
+  intros Hn Hs. unfold get_dist, one_pass, one_pass_gave_up, usable, has_equality, req_has_prerelease. rewrite Hn, Hs.
   assert (Hscan : forall b t cs, scan r b t cs = scan r' b t cs).
   { intros b t cs; revert t; induction cs as [|c cs IH]; intros t; cbn [scan]; [reflexivity|].
     rewrite Hn. destruct (creadable c && _); [reflexivity|]. destruct b; [destruct (_ <=? _)|]; try reflexivity; apply IH. }
-  destruct (match slookup _ u with Some l => l | None => [] end); rewrite ?Hscan; reflexivity.
+  assert (Hgave : forall b t cs, scan_gave_up r b t cs = scan_gave_up r' b t cs).
+  { intros b t cs; revert t; induction cs as [|c cs IH]; intros t; cbn [scan_gave_up]; [reflexivity|].
+    rewrite Hn. destruct (creadable c && _); [reflexivity|]. destruct b; [destruct (_ <=? _)|]; try reflexivity; apply IH. }
+  destruct (match slookup _ u with Some l => l | None => [] end); rewrite ?Hscan, ?Hgave; reflexivity.
 Qed.
